@@ -22,7 +22,11 @@ EXPLANATION = (
     "fields; LAT-4 the neighbour offsets are closed under negation (with row-parity flip in the open "
     "triangular branch), each axis is reduced modulo the field that is its radix, adjacency entries "
     "are written as (i,j)/(j,i) pairs behind a 0 <= n < extent bounds test; LAT-5 the number of "
-    "distinct offsets equals the declared coordination number."
+    "distinct offsets equals the declared coordination number. "
+    "LAT-4: a neighbour coordinate that can leave its axis (open boundary) is range-checked per "
+    "coordinate before it is flattened into a site number. tree_unflatten bodies with local unpacking / "
+    "star-args of composite fields and row-major site lists (np.ndindex, itertools.product) are "
+    "modelled. "
 )
 NOT_DECIDED = (
     "value-dependent graph facts (regularity / irreflexivity for particular side lengths, degree "
